@@ -68,6 +68,15 @@ var glSpecs = []glSpec{
 	{"range-cache", "Range", "isValidFor", "rangeIsValidFor"},
 	{"split-car-fetcher", "", "min", "scfMin"},
 	{"split-car-fetcher", "", "max", "scfMax"},
+	{"slottools", "", "CalcEpochForSlot", "calcEpochForSlotM"},
+	{"slottools", "", "EpochForSlot", "epochForSlot"},
+	{"slottools", "", "Uint64ToLEBytes", "uint64ToLEBytes"},
+	{"slottools", "", "Uint64FromLEBytes", "uint64FromLEBytes"},
+	{"blocktimeindex", "Index", "Get", "btGet"},
+	{"blocktimeindex", "Index", "Set", "btSet"},
+	{"blocktimeindex", "", "blocktimeToBytes", "btToBytes"},
+	{"blocktimeindex", "Index", "marshalBinary", "btMarshal"},
+	{"blocktimeindex", "Index", "unmarshalBinary", "btUnmarshal"},
 }
 
 func init() { generators = append(generators, genGoLean) }
@@ -413,6 +422,12 @@ func (g *glGen) leanTypeOK(t types.Type) (string, bool) {
 	if tp, ok := t.(*types.TypeParam); ok {
 		return tp.Obj().Name(), true
 	}
+	if isNamed(t, "bytes", "Reader") {
+		return "Go.BytesReader", true
+	}
+	if isNamed(t, "bytes", "Buffer") {
+		return "(List UInt8)", true
+	}
 	if nt, ok := t.(*types.Named); ok {
 		if _, isStruct := nt.Underlying().(*types.Struct); isStruct {
 			return g.structName(nt), true
@@ -523,6 +538,12 @@ func (g *glGen) structName(nt *types.Named) string {
 func (g *glGen) zero(t types.Type) (string, bool) {
 	if _, ok := t.(*types.TypeParam); ok {
 		return "default", true
+	}
+	if isNamed(t, "bytes", "Reader") {
+		return "(Go.BytesReader.mk [] 0)", true
+	}
+	if isNamed(t, "bytes", "Buffer") {
+		return "([] : List UInt8)", true
 	}
 	if nt, ok := t.(*types.Named); ok {
 		if _, isStruct := nt.Underlying().(*types.Struct); isStruct {
@@ -1335,6 +1356,13 @@ func (c *glCtx) emitReturn(s *ast.ReturnStmt, n ast.Node) {
 					c.emit("throw (Err.err %q)", tag)
 					return
 				}
+				if cf := calleeOf(c.p, call); cf != nil && c.g.funcs[cf] == nil {
+					// an error built by a function outside the translated set (NewErrX(..)): tagged by its name
+					if sg, ok := cf.Type().(*types.Signature); ok && sg.Results().Len() == 1 && (isErrorType(sg.Results().At(0).Type()) || implementsError(sg.Results().At(0).Type())) {
+						c.emit("throw (Err.err %q)", cf.Name())
+						return
+					}
+				}
 				if len(s.Results) == 1 {
 					c.callMulti(call, 0)
 					continue
@@ -1536,6 +1564,10 @@ func (c *glCtx) loopWith(lp loopParts, condStr string, postFn func(*glCtx), extr
 	loopName := fmt.Sprintf("%s.loop%d", c.f.spec.lean, *c.loopCtr)
 	// variables: declared outside the loop & used inside
 	inner := declaredIn(c.p, lp.node)
+	if fs, ok := lp.node.(*ast.ForStmt); ok {
+		// the variables of the init statement live across iterations: they are loop state, not per-iteration locals
+		inner = declaredIn(c.p, fs.Body)
+	}
 	used := usedIn(c.p, lp.node)
 	asg := assignedObjs(c.p, lp.node)
 	var fixed, state []types.Object
@@ -1688,4 +1720,14 @@ func parenIfSpace(s string) string {
 		return "(" + s + ")"
 	}
 	return s
+}
+
+func implementsError(t types.Type) bool {
+	ms := types.NewMethodSet(t)
+	for i := 0; i < ms.Len(); i++ {
+		if ms.At(i).Obj().Name() == "Error" {
+			return true
+		}
+	}
+	return false
 }
